@@ -238,6 +238,8 @@ def OPS(E):
         # one chain object aggregated from two different start levels; a failing call is repeated on the same object
         'chain_aggregate_two_levels': (with_sig, one('chainagg 0 0 0 3', ('rc', 'a', 'alevel', 'b', 'blevel', 'completed'))),
         'chain_aggregate_two_levels_nocache': (with_sig_nocache, one('chainagg 0 0 2 0', ('rc', 'a', 'alevel', 'b', 'blevel', 'completed'))),
+        'blocksign_retry_masked': (with_net, one('blocksign 0 6 1 0 9 retry=1', ('rc', 'nsig', 'badsig', 'prevleaf', 'completed'))),
+        'blocksign_retry_masked_meta': (with_net, one('blocksign 0 5 1 1 4 retry=1', ('rc', 'nsig', 'badsig', 'prevleaf', 'completed'))),
         'blocksign_continue': (with_net, one('blocksign 0 6 1 1 9 cont=1', ('rc', 'nsig', 'badsig', 'failed_calls', 'handle_on_error', 'completed'))),
         'blocksign_continue_plain': (with_net, one('blocksign 0 7 0 0 5 cont=1', ('rc', 'nsig', 'badsig', 'failed_calls', 'handle_on_error', 'completed'))),
     }
